@@ -195,10 +195,48 @@ def checkC13 (c : Ctx) (setupOps : Nat) : List String :=
   (if c.obs.result == "ok" && finalC.success + finalC.failed + finalC.fault != c.work.length then ["c13-piece-lost"] else []) ++
   (if finalC.fault > c.req.faults.length then ["c13-spread"] else [])
 
+/-! C11: the tree at an emulated crash -/
+
+/-- effect of one logged operation (as in TB.Props.C11.applyOp) -/
+def applyOpC (fs : Fs) (o : Op) : Fs :=
+  match o.kind with
+  | .mkdirs => if o.ok then (fs.mkdirs o.path).1 else fs
+  | .openc => if o.ok then (fs.openCreate o.path).1 else fs
+  | .setlen n => if o.ok then (match fs.look o.path with | .file i => fs.setLen i n | _ => fs) else fs
+  | .write off d => if o.ok then (match fs.look o.path with | .file i => fs.writeAt i off d | _ => fs) else fs
+  | _ => fs
+
+/-- the part of mutating operation `o` that precedes a crash after `j` units (bytes of a write, directories of a
+    create_dir_all) -/
+def applyPartial (fs : Fs) (o : Op) (j : Nat) : Fs :=
+  match o.kind with
+  | .write off d => (match fs.look o.path with | .file i => if j == 0 then fs else fs.writeAt i off (d.take j) | _ => fs)
+  | .mkdirs =>
+    let missing := ((Fs.properPrefixes o.path ++ [o.path]).filter (fun q => !fs.isDir q)).take j
+    { fs with dirs := missing.reverse ++ fs.dirs }
+  | _ => fs
+
+/-- tree after the first `k` mutating operations and `j` units of the next one; also returns the log prefix -/
+def crashState : Fs → List Op → Nat → Nat → List Op → Fs × List Op
+  | fs, [], _, _, acc => (fs, acc)
+  | fs, o :: os, k, j, acc =>
+    if o.kind.mutating then
+      if k == 0 then (applyPartial fs o j, acc)
+      else crashState (applyOpC fs o) os (k - 1) j (acc ++ [o])
+    else crashState (applyOpC fs o) os k j (acc ++ [o])
+
+def checkC11 (c : Ctx) : List String :=
+  let bytes := (checkC01 c).filter (· == "c01-bytes")
+  let outside := (checkC03 c).filter (· == "c03-outside-changed")
+  let lost := c.work.any (fun w => verifiesIn c c.beforeOf true w && !verifiesIn c c.afterOf false w)
+  (if bytes.isEmpty then [] else ["c11-bytes"]) ++ (if outside.isEmpty then [] else ["c11-outside"]) ++
+  (if lost then ["c11-lost"] else [])
+
 def checkRun (H : Bytes → Bytes) (r : RunReq) (inp : RunIn) (out : RunOut) (i : RunObs) : List String :=
   let torrents := dedupTorrents (sortTorrents inp.torrents)
   let c : Ctx := { H := H, req := r, before := inp.fs, table := out.table, work := out.work, obs := i,
                    exportDir := inp.exportDir.path, roots := torrents.map (fun t => inp.exportDir.path ++ [hex t.infoHash]) }
+  if r.crash.isSome then checkC11 c else
   checkC16 c ++ checkC01 c ++ checkC12 c ++ checkC03 c ++ checkC04 c ++ checkC15 c ++ checkC02 c ++ checkC14 c ++ checkC13 c out.setupOps
 
 end TB.Check
